@@ -139,16 +139,32 @@ func c17NativeResolve(root, p string) {
 		target = c17Norm(base, root+"/"+p)
 	}
 	rootN := c17Norm(base, root)
-	if c17Inside(rootN, target) {
-		return // model does not escape according to the reference: nothing to show
+	if !c17Inside(rootN, target) {
+		tpath := "/" + filepath.Join(target...)
+		if len(tpath) >= len(tmp) && tpath[:len(tmp)] == tmp { // stays inside the sandbox directory
+			os.MkdirAll(filepath.Dir(tpath), 0755)
+			if fi, err := os.Stat(tpath); err != nil || !fi.IsDir() {
+				os.WriteFile(tpath, []byte("SENTINEL"), 0644)
+			}
+		}
 	}
-	tpath := "/" + filepath.Join(target...)
-	if len(tpath) < len(tmp) || tpath[:len(tmp)] != tmp {
-		return // would leave the sandbox directory
-	}
-	os.MkdirAll(filepath.Dir(tpath), 0755)
-	if fi, err := os.Stat(tpath); err != nil || !fi.IsDir() {
-		os.WriteFile(tpath, []byte("SENTINEL"), 0644)
+	// files whose name is a path of the tree with something appended (a locator that alters the path after checking it
+	// opens a sibling): next to every directory of the tree, outside the root
+	for _, d := range []string{"r", "r/s", "q", "."} {
+		for _, ext := range []string{".ecal", ".txt", "x"} {
+			sib := c17Norm(base, d+ext)
+			if d == "." {
+				sib = c17Norm(base, "../w"+ext)
+			}
+			if !c17Inside(rootN, sib) {
+				sp := "/" + filepath.Join(sib...)
+				if len(sp) > len(tmp) && sp[:len(tmp)] == tmp {
+					if _, err := os.Stat(sp); err != nil {
+						os.WriteFile(sp, []byte("SENTINEL"), 0644)
+					}
+				}
+			}
+		}
 	}
 	res, err := (&FileImportLocator{Root: root}).Resolve(p)
 	zz.Assert(!(err == nil && res == "SENTINEL"), "C17.opened-path-inside-root")
